@@ -676,6 +676,9 @@ func (loader *Loader) resolveHeaderRef(doc *T, component *HeaderRef, documentPat
 		return nil
 	}
 
+	if err := loader.resolveContentRefs(doc, value.Content, documentPath); err != nil {
+		return err
+	}
 	if schema := value.Schema; schema != nil {
 		if err := loader.resolveSchemaRef(doc, schema, documentPath, []string{}); err != nil {
 			return err
@@ -685,6 +688,43 @@ func (loader *Loader) resolveHeaderRef(doc *T, component *HeaderRef, documentPat
 		if example := value.Examples[name]; example != nil {
 			if err := loader.resolveExampleRef(doc, example, documentPath); err != nil {
 				return err
+			}
+		}
+	}
+	return nil
+}
+
+// resolveContentRefs resolves the references inside the media types of a parameter's or header's content:
+// examples, schema and the headers of encodings.
+func (loader *Loader) resolveContentRefs(doc *T, content Content, documentPath *url.URL) error {
+	for _, name := range componentNames(content) {
+		contentType := content[name]
+		if contentType == nil {
+			continue
+		}
+		for _, name := range componentNames(contentType.Examples) {
+			if example := contentType.Examples[name]; example != nil {
+				if err := loader.resolveExampleRef(doc, example, documentPath); err != nil {
+					return err
+				}
+			}
+		}
+		if schema := contentType.Schema; schema != nil {
+			if err := loader.resolveSchemaRef(doc, schema, documentPath, []string{}); err != nil {
+				return err
+			}
+		}
+		for _, name := range componentNames(contentType.Encoding) {
+			encoding := contentType.Encoding[name]
+			if encoding == nil {
+				continue
+			}
+			for _, name := range componentNames(encoding.Headers) {
+				if header := encoding.Headers[name]; header != nil {
+					if err := loader.resolveHeaderRef(doc, header, documentPath); err != nil {
+						return err
+					}
+				}
 			}
 		}
 	}
@@ -745,13 +785,8 @@ func (loader *Loader) resolveParameterRef(doc *T, component *ParameterRef, docum
 	if value.Content != nil && value.Schema != nil {
 		return errors.New("cannot contain both schema and content in a parameter")
 	}
-	for _, name := range componentNames(value.Content) {
-		contentType := value.Content[name]
-		if schema := contentType.Schema; schema != nil {
-			if err := loader.resolveSchemaRef(doc, schema, documentPath, []string{}); err != nil {
-				return err
-			}
-		}
+	if err := loader.resolveContentRefs(doc, value.Content, documentPath); err != nil {
+		return err
 	}
 	if schema := value.Schema; schema != nil {
 		if err := loader.resolveSchemaRef(doc, schema, documentPath, []string{}); err != nil {
